@@ -21,7 +21,7 @@ type env struct {
 }
 
 func newEnv(stream bool) (*env, error) {
-	w, err := vtx.NewWorld(vtx.Config{Stream: stream}, []string{"c1", "c2", "c3"}, []string{"A", "B"})
+	w, err := vtx.NewWorld(vtx.Config{Stream: stream}, []string{"c1", "c2", "c3", "c4"}, []string{"A", "B"})
 	if err != nil {
 		return nil, err
 	}
@@ -29,6 +29,9 @@ func newEnv(stream bool) (*env, error) {
 	for _, ev := range []vtx.Event{
 		{K: "alloc", C: "c3", L: -1}, {K: "perm", C: "c3", Peers: []string{"A"}, L: -1}, {K: "chan", C: "c3", N: 0x4000, Peers: []string{"B"}, L: -1},
 		{K: "alloc", C: "c1", L: -1}, {K: "perm", C: "c1", Peers: []string{"A"}, L: -1}, {K: "chan", C: "c1", N: 0x4000, Peers: []string{"B"}, L: -1},
+		// c4 holds a TCP allocation (RFC 6062) with a permission: datagram-style traffic on it (Send indications,
+		// ChannelData) has no relay socket to go to and is dropped
+		{K: "alloc", C: "c4", L: -1, TCP: true}, {K: "perm", C: "c4", Peers: []string{"A"}, L: -1},
 	} {
 		if v := x.Apply(ev); v != nil {
 			return nil, fmt.Errorf("setup: %s %s", v.Sig, v.Detail)
@@ -38,6 +41,8 @@ func newEnv(stream bool) (*env, error) {
 
 	return &env{w, x}, nil
 }
+
+func stream(w *vtx.World) bool { return w.Cfg.Stream }
 
 func drainAll(w *vtx.World) {
 	for _, n := range w.CNames {
@@ -62,6 +67,11 @@ func (e *env) probe(src string) string {
 				return "binding-from-same-source-unanswered"
 			}
 		}
+	}
+	if c4 := w.C["c4"]; c4.Conn == nil || !c4.Conn.IsClosed() {
+		c4.Send(wire.New(wire.Send, wire.Indication, w.NextTx()).XorAddr(wire.AttrXORPeerAddress, w.P["A"].Addr.IP, w.P["A"].Addr.Port).Str(wire.AttrData, "datagram-on-a-tcp-allocation").Bytes())
+		c4.Send(wire.ChannelData(0x4000, []byte("channel-data-on-a-tcp-allocation"), stream(w)))
+		synctest.Wait()
 	}
 	v := w.C["c3"]
 	a := e.x.M.Allocs["c3"]
